@@ -49,13 +49,26 @@ G3 = ["S|a|8|*", "S|b|8|*", "S|c|8|*", "S|d|8|*", "S|e|8|*", "S|x|8|*",
 G4 = ["S|a|8|*", "S|b|8|*", "S|c|8|*", "S|d|8|*",
       "E|e1|a+|b+|6|8$|0|2|*", "E|e2|b+|a+|6|8$|0|2|*", "E|e3|b+|c+|6|8$|0|2|*", "E|e4|c+|a+|6|8$|0|2|*",
       "E|e5|c+|d+|6|8$|0|2|*", "E|e6|d+|a+|6|8$|0|2|*", "E|ei|b+|d+|3|4|3|4|*"]
-GRAPHS = [G1, G2, G3, G4]
+#  G5: a CHAIN OF E LINES WITHOUT DIRECTION: internal alignments iba (b, a), icb (c, b), ide (d-, e),
+#  the containment cdc (d in c), and one dovetail dbe b+ -> e+.  The segment two consecutive
+#  edges share is the first field of one and the second of the other in every combination
+G5 = ["S|a|8|*", "S|b|8|*", "S|c|12|*", "S|d|8|*", "S|e|8|*",
+      "E|iba|b+|a+|2|3|4|5|*", "E|icb|c+|b+|3|4|5|6|*", "E|cdc|d+|c+|0|8$|2|10|*", "E|ide|d-|e+|3|4|3|4|*",
+      "E|dbe|b+|e+|6|8$|0|2|*"]
+#  G6: a chain a+ e1+ b+ e2+ c+ with FRAGMENTS on a and b and a GAP between a and c: every record
+#  type that creates a placeholder for a segment it mentions (E, F, G; O and U do so for any item)
+G6 = ["S|a|8|*", "S|b|8|*", "S|c|8|*",
+      "E|e1|a+|b+|6|8$|0|2|*", "E|e2|b+|c+|6|8$|0|2|*",
+      "F|a|r1+|0|2|0|2|*", "F|b|r2-|0|2|3|5|*", "G|g1|a-|c+|10|*"]
+GRAPHS = [G1, G2, G3, G4, G5, G6]
 SEGS = ["a", "b", "c", "d"]
 SEGS3 = ["a", "b", "c", "d", "e"]
 EDGES = [["e1", "e2", "e3", "e4", "e5", "e6", "e7"],
          ["e1", "e2", "e3", "e4", "e5", "e6", "e7", "es", "eh", "ea", "e9"],
          ["ab", "bc", "ad", "ce"],
-         ["e1", "e2", "e3", "e4", "e5", "e6", "ei"]]
+         ["e1", "e2", "e3", "e4", "e5", "e6", "ei"],
+         ["iba", "icb", "cdc", "ide", "dbe"],
+         ["e1", "e2"]]
 GROUP_IDS = ["o", "p", "q", "u", "v", "w", "r", "s", "t"]
 UNDEF = "zz"
 
@@ -72,7 +85,7 @@ class Catalogue:
     def __init__(self):
         self.items = []          # [{"id","o"}]
         self.index = {}
-        for name in SEGS3 + ["x"] + EDGES[1] + EDGES[2] + ["ei"] + GROUP_IDS + [UNDEF]:
+        for name in SEGS3 + ["x"] + EDGES[1] + EDGES[2] + ["ei"] + EDGES[4] + GROUP_IDS + [UNDEF]:
             for o in ("+", "-", ""):
                 self.index[name + o] = len(self.items) + 1
                 self.items.append({"id": name, "o": o})
@@ -226,10 +239,10 @@ def families(tier):
                                      slot("O", "r", C.ix("q+ q- a+ b+"), 1, 2, must=C.ix("q+ q-")),
                                      slot("O", "s", C.ix("q+ q- a+ b+"), 1, 2, must=C.ix("q+ q-")),
                                      slot("O", "q", C.ix("a+ b+ e1+ e2+") if q else g4q, 1, 2)],
-                       kind="repeat", nsh=4 if q else 12))
+                       kind="repeat", nsh=2 if q else 12))
     # F6b: the first item is an E line without direction (internal alignment) and the second a
     # nested path: which way the edge is travelled is decided by where the nested path starts
-    ul = ["ei+ p+", "ei- p+", "ei+ p-", "ei- p-", "ei+ p+ a+", "p+ ei+", "p- ei-"] + ([] if q else ["ei+ p+ p+", "ei+ ei- p+"])
+    ul = ["ei+ p+", "ei- p+", "ei+ p-", "ei- p-", "p+ ei+"] + ([] if q else ["ei+ p+ a+", "p- ei-", "ei+ p+ p+", "ei+ ei- p+"])
     fams.append(family("undirO", 4, [listed("O", "o", ul),
                                       slot("O", "p", C.ix("b+ d+ b- d- a+ c- e3+ e6+ e5- e2-") if q else
                                            C.alph(SEGS, pm) + C.ix("e3+ e6+ e5- e2- e1- e5+ ei+ ei-"), 1, 2)],
@@ -241,16 +254,39 @@ def families(tier):
     fams.append(family("lateO", 4, [listed("O", "p", pl),
                                      listed("O", "t", ["p+ d+", "p-", "d- p-"] + ([] if q else ["p+ p+"])),
                                      listed("U", "w", ["p", "t a"] + ([] if q else ["p d"]))],
-                       split=2 if q else 3, splitmin=2, tagsets=t2, orders="all", nsh=3 if q else 12))
-    fams.append(family("lateU", 4, [listed("U", "u", ["a c", "a e5", "d b c"] + ([] if q else ["c w", "a b c d"])),
+                       split=2 if q else 3, splitmin=2, tagsets=t2, orders="all", nsh=2 if q else 12))
+    fams.append(family("lateU", 4, [listed("U", "u", ["a e5", "d b c"] + ([] if q else ["a c", "c w", "a b c d"])),
                                      listed("U", "v", ["u", "u b"]),
-                                     listed("U", "w", ["v", "u v", "u d"])],
+                                     listed("U", "w", ["v", "u d"] + ([] if q else ["u v"]))],
                        split=2 if q else 3, splitmin=2, tagsets=t2, orders="all", nsh=1 if q else 8))
     # F7b: the mentioning group is a multi-line group too (two slots with the same identifier)
     fams.append(family("lateOO", 4, [listed("O", "p", ["a+ b+ c+"] + ([] if q else ["a+ e1+ b+ c+"])),
                                       listed("O", "t", ["p+", "a- p-"] if q else ["p+", "p-", "a- p-"]),
                                       listed("O", "t", ["d+", "d+ a+"])] + ([] if q else [listed("U", "w", ["t"])]),
                        split=2, splitmin=2, tagsets=t2, orders="all", nsh=1 if q else 4))
+    # F8: E lines WITHOUT DIRECTION at every position of a path (G5): two and three consecutive
+    # internal alignments / containments in every field order and sign combination, mixed with a
+    # dovetail and with segments.  The witness w = `iba+ b+` (a walk only if iba is travelled against
+    # its written order) is in every document: one reading has to explain both answers (C17.reading)
+    e5 = C.alph(EDGES[4], pm)
+    wit = listed("O", "w", ["iba+ b+"])
+    fams.append(family("undirE", 5, [slot("O", "o", C.alph(EDGES[4][:4], pm) if q else e5, 2, 3), wit], nsh=1 if q else 4))
+    fams.append(family("undirE-seg", 5, [slot("O", "o", C.ix("dbe+ b+ c+ d+ iba+ icb- cdc+ ide-") if q else
+                                              e5 + C.ix("a+ b+ c+ c- d+ e-"), 2, 3), wit], nsh=1 if q else 12))
+    # F9: PLACEHOLDERS (G6, fragments and a gap in the graph): the groups arrive before the
+    # segments they mention, and the E, F, G lines that mention the same segments arrive between
+    # them in every order of the blocks (a multi-line group: also between its lines)
+    block = lambda o: o.index("Y") == o.index("X") + 1          # the group lines in one block
+    hl = ["a+ b+ c+", "e1+ c+", "c- b-"]
+    fams.append(family("holders", 6, [listed("O", "p", hl), listed("U", "u", ["b p", "a e2"])],
+                       split=2, splitmin=1, tagsets=((1,), (1, 1)),
+                       arrs=arr_codes(lambda o: block(o) and (q is False or o.index("X") < o.index("S"))),
+                       nsh=2 if q else 4))
+    fams.append(family("holders-between", 6, [listed("O", "p", ["a+ b+ c+"] if q else hl), listed("U", "u", ["b p"]),
+                                               listed("O", "o", ["p-"])],
+                       split=2, splitmin=2, tagsets=((1, 1),),
+                       arrs=arr_codes(lambda o: not block(o) and (q is False or o.index("X") < o.index("S"))),
+                       nsh=1 if q else 4))
     return fams
 
 
@@ -292,6 +328,20 @@ def mc_cases(fam, sh, wd):
 # --------------------------------------------------------------------------
 # driving gfapy (recording only)
 
+def _class_orders():
+    """Arrangements 5, 6, ...: every order of the blocks S E F G (the lines of the base graph by
+    record type), X (the group lines but the last) and Y (the last group line), X before Y."""
+    import itertools
+    return ["".join(p) for p in itertools.permutations("EFGSXY") if p.index("X") < p.index("Y")]
+
+
+ARR_ORDERS = _class_orders()
+
+
+def arr_codes(pred):
+    return [5 + i for i, o in enumerate(ARR_ORDERS) if pred(o)]
+
+
 def arrival(case):
     """Concrete lines of a case in the order they are added."""
     base = [text_of(l) for l in GRAPHS[case["g"] - 1]]
@@ -299,6 +349,11 @@ def arrival(case):
     E = [l for l in base if l[0] == "E"]
     grp = [CAT.line_text(ld) for ld in case["lines"]]
     a = case["arr"]
+    if a >= 5:
+        blocks = {k: [l for l in base if l[0] == k] for k in "SEFG"}
+        blocks["X"] = grp[:-1] if len(grp) > 1 else grp
+        blocks["Y"] = grp[-1:] if len(grp) > 1 else []
+        return [l for k in ARR_ORDERS[a - 5] for l in blocks[k]]
     if a == 1:
         return S + E + grp
     if a == 2:
@@ -520,6 +575,7 @@ def shard_job(job):
 API_SITE = {"C17.path": "gfapy/line/group/ordered/captured_path.py:captured_path",
             "C17.path-error-missed": "gfapy/line/group/ordered/captured_path.py:captured_path",
             "C17.path-error-spurious": "gfapy/line/group/ordered/captured_path.py:captured_path",
+            "C17.reading": "gfapy/line/group/ordered/captured_path.py:captured_path",
             "C17.set": "gfapy/line/group/unordered/induced_set.py:induced_set",
             "C17.set-error": "gfapy/line/group/unordered/induced_set.py:induced_set",
             "C17.items": "gfapy/line/group/gfa2/same_id.py:_process_not_unique",
@@ -666,6 +722,9 @@ def replay(prop, v, path):
     print("  validate() ->", rec["val"], " notes:", rec["notes"])
     for x in EXPLAINED:
         print("  specification expects:", x)
+    if "C17.reading" in clauses:
+        print("  each answer is explained by some reading, but no ONE reading (where implied edges are looked for x "
+              "which way an E line without direction may be travelled) explains them all")
     if clauses:
         print("REJECT clauses=%s" % ",".join(clauses))
         print("VIOLATION property=%s replay=%s" % (prop, path))
@@ -704,6 +763,14 @@ def selftest(tolerant=False):
         # an internal alignment first, then a nested path that starts at its second segment
         {"g": 4, "arr": 1, "lines": [["O", "p", C.ix("d+ a+"), 1], ["O", "o", C.ix("ei+ p+"), 1]],
          "cls": [["p", "O", "walk", True, False], ["o", "O", "walk", True, False]], "from_tlc": False},
+        # two internal alignments first (the shared segment is sid1 of one, sid2 of the other), next
+        # to the witness that the implementation travels such edges against their written order
+        {"g": 5, "arr": 1, "lines": [["O", "o", C.ix("iba+ icb+"), 1], ["O", "w", C.ix("iba+ b+"), 1]],
+         "cls": [["o", "O", "not-contiguous", True, True], ["w", "O", "not-contiguous", True, True]], "from_tlc": False},
+        # groups first, then the fragments, the gap, the segments and the edges
+        {"g": 6, "arr": arr_codes(lambda o: o == "XYFGSE")[0],
+         "lines": [["O", "p", C.ix("a+ b+"), 1], ["U", "u", C.ix("b p"), 1], ["O", "p", C.ix("c+"), 1]],
+         "cls": [["p", "O", "walk", True, False], ["u", "U", "set", True, False]], "from_tlc": False},
     ]
     gfapy = _load_gfapy()
     _limits()
@@ -812,6 +879,9 @@ def selftest(tolerant=False):
     mutant(3, stale_walk_short, "C17.path")
     mutant(4, raises(1), "C17.path-error-spurious")
     mutant(5, raises(1), "C17.path-error-spurious")
+    mutant(6, raises(0), "C17.reading")          # alone acceptable (written order binding), not next to w
+    mutant(7, raises(0), "C17.path-error-spurious")   # p left unresolved although everything arrived
+    mutant(7, raises(1), "C17.set-error")
     rej, _ = validate_records(recs + muts, pool, tlc.workdir("groups-selftest"))
     broken = [i for i in range(len(base)) if rej.get(i)] if tolerant else []
     for cid, w in want.items():
